@@ -22,7 +22,11 @@ type flusher interface {
 }
 
 func (f FlushComponent) Render(ctx context.Context, w io.Writer) (err error) {
-	if err = GetChildren(ctx).Render(ctx, w); err != nil {
+	// Take the children out of the shared context, as generated components do,
+	// so that they don't leak into nested or subsequent components.
+	children := GetChildren(ctx)
+	ctx = ClearChildren(ctx)
+	if err = children.Render(ctx, w); err != nil {
 		return err
 	}
 	switch w := w.(type) {
